@@ -96,11 +96,14 @@ def build(name, drivers, defines=(), san="asan", extra=(), link=(), cxx="g++", w
     key = _sha(("\0".join(objs) + "\0" + " ".join(flags) + " ".join(link)).encode())
     exe = os.path.join(CACHE, "%s-%s" % (name, key[:16]))
     if not os.path.exists(exe):
-        cmd = [cxx] + [f for f in flags if f.startswith("-fsanitize") or f in ("-fopenmp", "--coverage")] + objs + ["-o", exe + ".tmp"] + list(link)
+        tmp = exe + ".%d.tmp" % os.getpid()      # per process: several checks may build the same executable at once
+        cmd = [cxx] + [f for f in flags if f.startswith("-fsanitize") or f in ("-fopenmp", "--coverage")] + objs + ["-o", tmp] + list(link)
         p = subprocess.run(cmd, stdout=subprocess.PIPE, stderr=subprocess.STDOUT, text=True)
         if p.returncode != 0:
+            if os.path.exists(exe):
+                return exe                       # another process finished the same link meanwhile
             raise BuildError("LINK FAILED: %s\n%s" % (" ".join(cmd[:6]) + " ...", p.stdout[-6000:]))
-        os.replace(exe + ".tmp", exe)
+        os.replace(tmp, exe)
     return exe
 
 
@@ -108,12 +111,20 @@ def prune_cache(max_bytes=6 << 30):
     """keep the cache bounded (oldest first)"""
     if not os.path.isdir(CACHE):
         return
-    files = [(os.path.getatime(os.path.join(CACHE, f)), os.path.getsize(os.path.join(CACHE, f)), os.path.join(CACHE, f))
-             for f in os.listdir(CACHE)]
+    files = []
+    for f in os.listdir(CACHE):
+        try:
+            st = os.stat(os.path.join(CACHE, f))
+        except OSError:
+            continue                             # removed or renamed by a check running in parallel
+        files.append((st.st_atime, st.st_size, os.path.join(CACHE, f)))
     total = sum(s for _, s, _ in files)
-    for _, s, f in sorted(files):
+    now = time.time()
+    for at, s, f in sorted(files):
         if total <= max_bytes:
             break
+        if now - at < 3600:
+            break                                # never remove what a parallel check may be compiling, linking or running
         try:
             os.remove(f)
         except OSError:
